@@ -252,7 +252,7 @@ theorem connCross_ok (L : Nat) (mt : MultiCouplingTerms α) (hL : mt.L = L) (hwf
       | some q =>
         obtain ⟨pp, hpp, hc, rfl⟩ := pathOf_some _ _ _ hq
         intro t ht
-        exact ⟨(hwf.leftOK pp hpp).2.1 t ht, (hwf.leftOK pp hpp).2.2 p.2 hc kk hconn t ht⟩
+        exact ⟨((hwf.leftOK pp hpp).2.1 t ht).1, (hwf.leftOK pp hpp).2.2 p.2 hc kk hconn t ht⟩
     · show ((((MultiCouplingTerms.pathOf mt.right p.2).getD []).map (·.1))).Pairwise (· > ·)
       cases hq : MultiCouplingTerms.pathOf mt.right p.2 with
       | none => simp
@@ -268,7 +268,7 @@ theorem connCross_ok (L : Nat) (mt : MultiCouplingTerms α) (hL : mt.L = L) (hwf
         obtain ⟨pp, hpp, hc, rfl⟩ := pathOf_some _ _ _ hq
         intro t ht
         refine ⟨(hwf.rightOK pp hpp).2.2 p.2 hc kk hconn t ht, ?_⟩
-        have := (hwf.rightOK pp hpp).2.1 t ht
+        have := ((hwf.rightOK pp hpp).2.1 t ht).2
         rw [hL] at this
         exact this
     · show ∀ y ∈ leftChain (α := α) ((MultiCouplingTerms.pathOf mt.left p.2).getD [])
